@@ -116,7 +116,7 @@ func (r *Run) codecSequences(reg codecRegion) []string {
 	seqs := map[string]bool{}
 	// tombstone variables: identifiers defined from fields.ReadTombstone
 	tsVars := map[types.Object]bool{}
-	ast.Inspect(reg.Fn, func(nd ast.Node) bool {
+	inspect(reg.Fn, func(nd ast.Node) bool {
 		as, ok := nd.(*ast.AssignStmt)
 		if !ok || len(as.Rhs) != 1 {
 			return true
@@ -306,7 +306,7 @@ func (r *Run) fieldLoops(root ast.Node) []ast.Stmt {
 				return true
 			}
 			has := false
-			ast.Inspect(body, func(m ast.Node) bool {
+			inspect(body, func(m ast.Node) bool {
 				if call, ok := m.(*ast.CallExpr); ok && fieldToken(r.P.CalleeFunc(info, call)) != "" {
 					has = true
 				}
